@@ -35,7 +35,10 @@ ApplyCall == /\ pc = "called" /\ Ev.ev = "apply_call"
 Preprocess == /\ pc = "applying" /\ Ev.ev = "preprocess"
               /\ Ev.obs = c.obs /\ Ev.stats = c.stats
               /\ c' = [c EXCEPT !.pre = Ev.out] /\ pc' = "preprocessed"
+\* the logits are those of the policy network on the normalised POLICY entry of the observation (Ev.ref is computed by an
+\* independently constructed policy network with the same parameters)
 ApplyRet == /\ pc = "preprocessed" /\ Ev.ev = "apply_ret"
+            /\ Ev.out = Ev.ref
             /\ c' = [c EXCEPT !.logits = Ev.out] /\ pc' = "logits"
 Mode == /\ pc = "logits" /\ c.det = 1 /\ Ev.ev = "mode" /\ Ev.logits = c.logits
         /\ c' = [c EXCEPT !.mode = Ev.out] /\ pc' = "moded"
